@@ -395,6 +395,29 @@ func c15Outage(c *vfeng.Ctx) {
 			primAfter := c15ReadFile(sick, profileDBFilename)
 			sick.setPrimaryOutage(false) // fault plans are process-wide: the healthy twin must not see this outage
 			sick.Close()
+			// the primary refuses every operation at once; the read timeout has its production value
+			if authOps[rt.Name] && m == "POST" && (rh.Code/100 == 2 || rh.Code/100 == 3) {
+				ff, fff := mk()
+				ff.setPrimaryFailFast(true)
+				q := c06Build(ff, p)
+				q.Cookies = append(q.Cookies, ff.vfCookie("alice", AuthTypePassword|AuthTypeTOTP|AuthTypeU2F))
+				if rt.Name == "loginHandler" {
+					q.Form.Set("password", vfUsers["alice"])
+				}
+				if rt.Name == "VIPAuthHandler" {
+					q.Form.Set("OTP", "111111")
+				}
+				_ = fff
+				rff := ff.DoAdvancing(q.Build())
+				ff.setPrimaryOutage(false)
+				ff.Close()
+				c.Eval(1)
+				if !(rff.Code/100 == 2 || rff.Code/100 == 3) {
+					c.Violate("C15|outage|authentication-unavailable|"+rt.Name+"|primary-fails-fast", fmt.Sprintf("%s %s succeeds (%d) with the primary up but fails (%d) when the primary refuses every operation at once (no fall-back to the cache)", m, p.Path, rh.Code, rff.Code), map[string]interface{}{"part": "d", "route": rt.Name, "method": m, "mode": "fail-fast"})
+				} else {
+					c.Class(fmt.Sprintf("outage|auth|fail-fast|%dxx", rff.Code/100), map[string]interface{}{"part": "d", "route": rt.Name, "method": m, "mode": "fail-fast"})
+				}
+			}
 			// the primary is unreachable when the request reads, reachable again when it writes
 			half, fhalf := mk()
 			half.setPrimaryReadOutage(true)
@@ -520,7 +543,7 @@ func init() {
 	vfRegister(&vfeng.Check{
 		ID:    "C15",
 		Level: "fault_enumeration",
-		Rule:  "(a) every profile shape (empty, nil/empty maps, 1-3 U2F registrations with real attestation certificates, TOTP entries, pending registration/TOTP secret, bootstrap OTP, WebAuthn credential + session data, 10 kB display name) saved, read back from the primary, synchronised and read back from the cache during an outage; (b) BFS with canonical-state deduplication over {save/delete user, upsert/delete signed record, tick 97h, sync} for two users on the real storage functions, comparing cache and primary after every completed synchronisation; (c) for every synchronisation reached at history depth <= 3 (thorough 4): a fault (error, and crash = connection abort + reopen) injected at EVERY SQL operation of copyDBIntoSQLite on the source and on the destination connection - cache content must equal the previous or the complete new content; (d) every route x {GET,POST} with an admitted credential against a healthy twin, a twin whose primary is unreachable and a twin whose primary does not answer reads but takes writes (outage ending inside the request); plus deployments with self-service bootstrap OTP: login of a user with/without devices via form and basic-auth in the three modes, with a recording mail sender (differential oracle)",
+		Rule:  "(a) every profile shape (empty, nil/empty maps, 1-3 U2F registrations with real attestation certificates, TOTP entries, pending registration/TOTP secret, bootstrap OTP, WebAuthn credential + session data, 10 kB display name) saved, read back from the primary, synchronised and read back from the cache during an outage; (b) BFS with canonical-state deduplication over {save/delete user, upsert/delete signed record, tick 97h, sync} for two users on the real storage functions, comparing cache and primary after every completed synchronisation; (c) for every synchronisation reached at history depth <= 3 (thorough 4): a fault (error, and crash = connection abort + reopen) injected at EVERY SQL operation of copyDBIntoSQLite on the source and on the destination connection - cache content must equal the previous or the complete new content; (d) every route x {GET,POST} with an admitted credential against a healthy twin, a twin whose primary is unreachable and a twin whose primary does not answer reads but takes writes (outage ending inside the request), and for authentication routes a twin whose primary refuses every operation at once with the production read timeout (virtual time advanced while the request waits); plus deployments with self-service bootstrap OTP: login of a user with/without devices via form and basic-auth in the three modes, with a recording mail sender (differential oracle)",
 		Assumptions: []string{"only the sqlite flavour of the storage layer is executed (no PostgreSQL in the sandbox)", "a crash is modelled as loss of the connection's uncommitted work followed by reopening the files; sqlite's own atomic-commit machinery is trusted", "an outage is modelled as in the repository's own tests: the primary's read timeout has already elapsed (remoteDBQueryTimeout=0) and every statement on it fails"},
 		Bounds: func(tier string) map[string]interface{} {
 			d, fd := 4, 3
